@@ -212,7 +212,8 @@ pub fn run(cases: &[Vec<String>]) {
         let id = case[0].clone();
         take_panics();
         let bytes = unhex(&case[3]);
-        let out = match std::panic::catch_unwind(move || run_txt(bytes)) {
+        let is_cand = case[2] == "cand";
+        let out = match std::panic::catch_unwind(move || if is_cand { run_cand(bytes) } else { run_txt(bytes) }) {
             Ok(s) => s,
             Err(e) => {
                 let msg = if let Some(s) = e.downcast_ref::<&str>() {
@@ -232,6 +233,27 @@ pub fn run(cases: &[Vec<String>]) {
             println!("{}\t{}\tPANIC {}", id, out, panics.join(" | "));
         }
     }
+}
+
+/// one candidate attribute value ("candidate:..."): IceCandidate::parse, the fields, Display (without its "a=") and the parse of that
+fn run_cand(bytes: Vec<u8>) -> String {
+    let text = match String::from_utf8(bytes) {
+        Ok(t) => t,
+        Err(_) => return "NOT-UTF8".into(),
+    };
+    let src = BytesStr::from(text);
+    let c1 = match IceCandidate::parse(src.as_ref(), &src) {
+        Ok((_, c)) => c,
+        Err(_) => return "C=ERR".into(),
+    };
+    let printed = c1.to_string();
+    let value = printed.strip_prefix("a=").unwrap_or(&printed).to_string();
+    let src2 = BytesStr::from(value.clone());
+    let c2 = match IceCandidate::parse(src2.as_ref(), &src2) {
+        Ok((_, c)) => cand(&c),
+        Err(_) => "ERR".into(),
+    };
+    format!("C={}\tT={}\tC2={}", cand(&c1), hex(value.as_bytes()), c2)
 }
 
 fn run_txt(bytes: Vec<u8>) -> String {
